@@ -298,7 +298,7 @@ class C20(Check):
                    'the entity list (&amp; &lt; &gt; &quot; &#x27; &#039;) is what a browser reads as character data']
 
     def budget(self, tier, escalated):
-        n = 1500 if tier == 'quick' else 40000
+        n = 1500 if tier == 'quick' else 120000
         return n * (3 if escalated and tier == 'quick' else 1)
 
     def nontrivial(self, sample):
@@ -601,7 +601,7 @@ class C20(Check):
     def _taint_case(self, rng, i):
         """request texts carrying unique markers wrapped in markup"""
         mk = lambda tag: f'{tag}{i}q{rng.randrange(10 ** 6)}z'
-        marks = {f: mk(f) for f in ('P', 'Q', 'H', 'F', 'S')}
+        marks = {f: mk(f) for f in ('P', 'Q', 'H', 'F', 'S')}    # path, query, Host, X-Forwarded-Host, -Proto
 
         def dress(m):
             parts = []
@@ -616,6 +616,8 @@ class C20(Check):
         c['host'] = rng.choice([None, dress(marks['H'])])
         c['fhost'] = rng.choice([None, None, dress(marks['F'])])
         c['fproto'] = rng.choice([None, None, None, dress(marks['S'])])
+        marks['X'] = mk('X')
+        c['leak'] = dress(marks['X'])        # exception message / traceback text derived from the request
         return c
 
     def _taint_run(self, apps, c):
@@ -642,7 +644,9 @@ class C20(Check):
             env.update({'CONTENT_TYPE': 'application/json', 'CONTENT_LENGTH': '4', 'wsgi.input': io.BytesIO(b'{bad')})
         if kind == 'big':
             env.update({'CONTENT_TYPE': 'application/json', 'CONTENT_LENGTH': str(10 ** 9)})
-        cur.cls, cur.msg, cur.msg2, cur.tb = ValueError, 'boom', 'handler failed', 'Traceback: none'
+        # a crashing handler typically quotes request data in its message (int(request.query.x) ...)
+        leak = c.get('leak') or 'boom'
+        cur.cls, cur.msg, cur.msg2, cur.tb = ValueError, leak, 'handler failed: ' + leak, 'Traceback: ' + leak
         if kind == 'reqerr':
             cur.cls = apps.req_classes['BodyParsingError']
         cur.hook = kind == 'hook'
@@ -667,23 +671,23 @@ class C20(Check):
         try:
             text = body.decode('utf8')
         except UnicodeDecodeError:
-            return f'{kind}:body-not-utf8', 'error body is not UTF-8'
+            return 'body-not-utf8', 'error body is not UTF-8'
         code = status.split(' ')[0]
         if code not in ('400', '404', '405', '413', '500'):
             return None            # not an error response: nothing to check
         critical = status == '500 INTERNAL SERVER ERROR'
         if c['json'] and not critical:
             if not ctype.startswith('application/json'):
-                return f'{kind}:json-content-type', f'JSON requested, Content-Type {ctype!r}'
+                return 'json-content-type', f'JSON requested, Content-Type {ctype!r}'
             try:
                 v = json.loads(text)
             except ValueError as ex:
-                return f'{kind}:json-invalid', f'JSON requested, body does not parse: {ex}'
+                return 'json-invalid', f'JSON requested, body does not parse: {ex}'
             if not (isinstance(v, dict) and set(v) == {'body', 'exception', 'traceback'} and isinstance(v['body'], str)):
-                return f'{kind}:json-fields', f'JSON error body has the wrong shape: {sorted(v) if isinstance(v, dict) else type(v).__name__}'
+                return 'json-fields', f'JSON error body has the wrong shape: {sorted(v) if isinstance(v, dict) else type(v).__name__}'
             return None
         if not ctype.startswith('text/html'):
-            return f'{kind}:html-content-type', f'HTML page with Content-Type {ctype!r}'
+            return 'html-content-type', f'HTML page with Content-Type {ctype!r}'
         # 1. no marker may appear next to a markup character (the escaped forms put `;`/`&`/`%` there)
         where = 'critical' if critical else 'page'
         for f, m in c['marks'].items():
